@@ -31,8 +31,11 @@ def build(ctx):
     im.replace("let n_shares: Decimal = trades.iter().map(|t| t.num_shares).sum();", "let n_shares: Decimal = hole_sum_shares(&trades);", 'H')
     im.replace("all_matching_trades.push(trades.into_iter().map(|t| *t).collect());", "all_matching_trades.push(hole_deref_refs(trades));", 'H')
     im.replace("let matching_trades = all_matching_trades.into_iter().next().unwrap();", "let matching_trades = hole_take_first(all_matching_trades);", 'H')
-    im.sub(r'(?s)let mut trade_combos: Vec<TradesCombination> = all_matching_trades\s*\.into_iter\(\)\s*\.map\(\|trades\| \{.*?\}\)\s*\.collect\(\);',
-           'let mut trade_combos: Vec<TradesCombination> = hole_rank_combos(all_matching_trades, benefit);', 'H', required=True)
+    # the ranking closure stays the repository's text; only the std adapters around and inside it are stand-ins
+    im.sub(r'(?s)(let mut trade_combos: Vec<TradesCombination> = )all_matching_trades\s*\.into_iter\(\)\s*\.map\(\|trades\| (\{.*?\})\)\s*\.collect\(\);',
+           r'\1hole_map_combos(all_matching_trades, |trades: Vec<&BrokerTx>| \2);', 'H', required=True)
+    im.sub(r'trades\.iter\(\)\.map\(\|t\| t\.amount_per_share \* t\.num_shares\)\.sum\(\)', 'hole_sum_value(&trades)', 'H', required=True)
+    im.sub(r'(let total_shares: Decimal =\s*)trades\.iter\(\)\.map\(\|t\| t\.num_shares\)\.sum\(\)', r'\1hole_sum_shares1(&trades)', 'H', required=True)
     im.sub(r'(?s)let combos_str = trade_combos\s*\.iter\(\).*?\.join\("\\n  "\);', 'let combos_str = crate::fmt_stub();', 'H', required=True)
     im.replace("Ok(trade_combos.into_iter().next().unwrap().trades)", "Ok(hole_take_first_combo(trade_combos).trades)", 'H')
     # the local struct of the function becomes a module-level item (R28): Verus has no items inside function bodies
